@@ -591,7 +591,45 @@ fn fuzzed_strategy(corp: Vec<String>) -> BoxedStrategy<Fuzzed> {
     let frag = prop::sample::select(FRAGMENTS.to_vec()).prop_map(|s| s.to_string());
     let edit = (any::<u16>(), 0u8..6, prop_oneof![
         2 => prop::sample::select(vec!["4294967295", "4294967296", "99999999999", "-1", "-0", "9223372036854775807", "9223372036854775808", "-9223372036854775809", "18446744073709551616", "1.5", "00", "1e5", "340282366920938463463374607431768211456", "0.1234567890123456789012345678901234567890"]).prop_map(|s| s.to_string()),3 => frag, 1 => "\\PC{0,4}".prop_map(|s| s), 1 => "[ -~]{0,6}".prop_map(|s| s)]);
-    (prop_oneof![6 => prop::sample::select(corp), 1 => "[ -~]{0,80}".prop_map(|s| s), 1 => Just(String::new())], prop::collection::vec(edit, 0..5)).prop_map(|(base, edits)| Fuzzed { base, edits }).boxed()
+    // non-ASCII bases: valid commands whose letters are replaced by 2-, 3- and 4-byte letters (optionally with a misspelt leading
+    // keyword), and free text over a mixed-width alphabet: every byte offset of such a text is likely to fall inside a character
+    let uni = (prop::sample::select(corp.clone()), any::<u64>(), any::<u64>(), 0u8..4).prop_map(|(b, bits, which, mode)| unicodify(&b, bits, which, mode));
+    let wide = "[a-zA-Z0-9éжß東京Ω𝒳 \"{}:,=()\\[\\]]{0,200}".prop_map(|s| s);
+    (prop_oneof![6 => prop::sample::select(corp), 2 => uni, 1 => wide, 1 => "[ -~]{0,80}".prop_map(|s| s), 1 => Just(String::new())], prop::collection::vec(edit, 0..5)).prop_map(|(base, edits)| Fuzzed { base, edits }).boxed()
+}
+
+/// replace ASCII lowercase letters by multi-byte letters where `bits` says so; mode 1/3 also misspell the leading keyword,
+/// mode 2/3 pad the text beyond the usual short-input length
+pub fn unicodify(base: &str, bits: u64, which: u64, mode: u8) -> String {
+    const REPL: [char; 4] = ['é', 'ж', '東', '𝒳'];
+    let mut out = String::new();
+    if mode & 1 == 1 {
+        out.push(['X', 'é', 'Q', 'ж'][(which & 3) as usize]);
+    }
+    let mut n = 0u32;
+    let mut in_first_word = true;
+    for ch in base.chars() {
+        if ch.is_whitespace() {
+            in_first_word = false;
+        }
+        if ch.is_ascii_lowercase() && !in_first_word {
+            if (bits.rotate_left(n) & 1) == 1 {
+                out.push(REPL[((which.rotate_left(2 * n)) & 3) as usize]);
+            } else {
+                out.push(ch);
+            }
+            n += 1;
+        } else {
+            out.push(ch);
+        }
+    }
+    if mode & 2 == 2 {
+        out.push(' ');
+        for i in 0..(40 + (which >> 8) % 60) {
+            out.push(if (bits.rotate_left(i as u32) & 1) == 1 { REPL[((which.rotate_left(i as u32)) & 3) as usize] } else { 'a' });
+        }
+    }
+    out
 }
 
 pub fn apply_edits(f: &Fuzzed) -> String {
